@@ -880,8 +880,6 @@ func doCheck(pc *propCfg, base uint64) int {
 	}
 	for ci, rule := range order {
 		vr := classes[rule]
-		nViol++
-		exit = 1
 		fmt.Printf("violation: property=%s rule=%s run=%d seed=%d: %s\n", pc.ID, rule, vr.res.Run, vr.res.Seed, vr.v.Detail)
 		path := filepath.Join(replayDir, fmt.Sprintf("%s-%s-%d.json", pc.ID, sanitize(rule), vr.res.Seed))
 		if ci < 4 {
@@ -891,13 +889,20 @@ func doCheck(pc *propCfg, base uint64) int {
 				c = regen(bin, pc, base, vr.res.Run)
 			}
 			if c != nil {
-				writeReplay(bin, pc, c, vr, path)
+				if !writeReplay(bin, pc, c, vr, path) {
+					// what cannot be shown again is not reported as a violation of the property: it is trouble with
+					// the machinery or its host (exit 2), whatever it was
+					troubles = append(troubles, fmt.Sprintf("%s of run %d (seed %d) did not happen again in three fresh processes: not reported as a violation", rule, vr.res.Run, vr.res.Seed))
+					continue
+				}
 			} else {
 				path = "(case could not be regenerated)"
 			}
 		} else {
 			path = "(not minimised: more than 4 violation classes in one run)"
 		}
+		nViol++
+		exit = 1
 		fmt.Printf("VIOLATION property=%s replay=%s\n", pc.ID, path)
 	}
 	for _, f := range findings {
@@ -1028,7 +1033,7 @@ func regen(bin string, pc *propCfg, base uint64, run int) *Case {
 	return nil
 }
 
-func writeReplay(bin string, pc *propCfg, c *Case, vr *violRec, path string) {
+func writeReplay(bin string, pc *propCfg, c *Case, vr *violRec, path string) bool {
 	c = cloneCase(c)
 	c.Race = pc.Race
 	c.Rule = vr.v.Rule
@@ -1047,8 +1052,15 @@ func writeReplay(bin string, pc *propCfg, c *Case, vr *violRec, path string) {
 			c, confirmed = k, true
 		}
 	}
+	for try := 0; !confirmed && try < 2; try++ {
+		k := cloneCase(c)
+		k.Tape = nil
+		if r2, tr2 := runOne(bin, k, pc.Race, true, false); tr2 == "" && hasRule(r2, c.Rule) != nil {
+			c, r, confirmed = k, r2, true
+		}
+	}
 	if !confirmed {
-		fmt.Printf("TROUBLE: violation %s of run %d did not reproduce in a fresh process (nondeterminism?)\n", c.Rule, vr.res.Run)
+		return false
 	}
 	if r != nil && r.Tape != nil {
 		c.Tape = r.Tape
@@ -1091,4 +1103,5 @@ func writeReplay(bin string, pc *propCfg, c *Case, vr *violRec, path string) {
 	os.MkdirAll(filepath.Dir(path), 0o755)
 	b, _ := json.MarshalIndent(c, "", " ")
 	os.WriteFile(path, append(b, '\n'), 0o644)
+	return true
 }
